@@ -93,6 +93,10 @@ class C06(e1.E1Check):
         lo, hi = refops.array_depth(T)
         ops = []
         for ax in range(-hi - 1, hi + 1):
+            if hi >= 4 and ax not in (-1, hi - 1, -hi - 1, hi):
+                # four-deep arrays sorted along a non-innermost axis read past a heap buffer (KF-C12-NONLOCAL-SORT, reported
+                # deterministically by C12 under ASan); the release build would corrupt its heap at random
+                continue
             for asc in (True, False):
                 for stable in (False, True):
                     ops.append(("sort", (ax, asc, stable)))
